@@ -134,6 +134,24 @@ def run_case(case, ctx):
     else:
         ctx.count("c11.evaluation-skipped-default-inadmissible")
 
+    # 2b. two conditional distributions with the same fixed parameter names but different values, both alive
+    free_names = [k for k in names if k not in fixed]
+    if free_names:
+        from virocon import DependenceFunction
+        from virocon.distributions import ConditionalDistribution
+
+        def _c(x, a=1.0):
+            return a + 0 * x
+
+        other_vals = {k: v * 1.5 + 0.25 for k, v in fixed.items()}
+        cd_a = ConditionalDistribution(cls(**{f"f_{k}": v for k, v in fixed.items()}), {k: DependenceFunction(_c) for k in free_names})
+        cd_b = ConditionalDistribution(cls(**{f"f_{k}": v for k, v in other_vals.items()}), {k: DependenceFunction(_c) for k in free_names})
+        g = np.array([0.5, 1.0, 2.0])
+        for cd_, want in ((cd_a, fixed), (cd_b, other_vals), (cd_a, fixed)):
+            pv = cd_._get_param_values(g)
+            okcd = all(np.all(np.asarray(pv[k]) == v) for k, v in want.items()) and all(cd_.fixed_parameters[k] == v for k, v in want.items())
+            ctx.check("c11.conditional-fixed", okcd, f"{fam}: a conditional distribution does not use its own fixed value (another conditional distribution with another value exists)", want=want, got={k: pv[k] for k in want}, **info)
+
     # 3. fitting
     data = _data(case, rng)
     start = dict(d.parameters)
@@ -174,6 +192,17 @@ def run_case(case, ctx):
     # f_ attribute still the declared one
     okattr = all(getattr(d, f"f_{k}") == v for k, v in fixed.items())
     ctx.check("c11.f-attribute-kept", okattr, f"{fam}: f_<name> attribute altered by fit", **info)
+    # history: a second fit of the same (already fitted) object on other data
+    data2 = data * float(rng.uniform(1.1, 1.6)) if R.SUPPORT[fam] == "pos" and not any(k in fixed for k in ("gamma", "loc")) else data + float(rng.uniform(-0.2, 0.2)) * (0.0 if R.SUPPORT[fam] == "pos" else 1.0)
+    try:
+        d.fit(data2[rng.permutation(len(data2))], method, case["weights"])
+        after2 = d.parameters
+        okf2 = all(abs(after2[k] - v) <= 1e-12 * max(1.0, abs(v)) for k, v in fixed.items())
+        ctx.check("c11.fixed-after-refit", okf2, f"{fam}: fixed parameter changed by a second fit of the same object", after=after2, **info)
+        ctx.check("c11.free-finite", all(np.isfinite(after2[k]) for k in free), f"{fam}: non-fixed estimates not finite after a second fit", after=after2, **info)
+    except Exception as e:  # noqa: BLE001
+        if not isinstance(e, NotImplementedError):
+            ctx.check("c11.fit-did-not-raise", False, f"{fam}: second fit with fixed {sorted(fixed)} raised {type(e).__name__}", message=str(e)[:200], **info)
 
 
 def _start_is_optimal(fam, free, start, data):
